@@ -163,6 +163,37 @@ PROPS["C13"] = {
     "level_note": "Held on generated + shipped documents; repo fixtures that do not parse are counted as not-accepted and skipped.",
 }
 
+PROPS["C05"] = {
+    "shards": 16,
+    "quick_budget_s": 60,
+    "thorough_budget_s": 900,
+    "floors": {"any": {"packages-encoded-by-both": 5000, "interfaces-compared": 12000, "worlds-compared": 10000,
+                       "world-items-compared": 8000, "worlds-one-way-checked": 1500, "feature:use-foreign": 1000,
+                       "feature:use-rename": 1000, "feature:include-with": 800, "feature:resource": 1500}},
+    "rule": "Each case draws 0-1 dependency packages (optionally versioned) and one package text inside the shared WIT/WAC subset: "
+            "1-4 interfaces (records, variants, enums, flags, aliases, lists/options/results/tuples, resources with constructors, "
+            "methods and statics, own/borrow handles, `use` of local and foreign interfaces with renames, chains and diamonds) and "
+            "1-3 worlds (interface imports/exports by name and by package path, plain functions, inline interfaces, `include` and "
+            "`include .. with { a as b }`). The same text is encoded by wit-parser + wit-component (reference) and by wac "
+            "(Document::parse -> resolve -> encode, define_components=true); the only textual difference is the `;` WAC requires "
+            "after an inline interface and after `include .. with {..}` (WIT forbids it there). Both binaries are nested in one "
+            "reference validator. Checked: wac accepts every text the reference accepts, without panicking; wac's binary validates; "
+            "every interface and world is exported by both under the same name; for every interface the two enclosing component "
+            "types are mutual subtypes under wasmparser's relation (compared at the component-type level so the validator maps the "
+            "abstract resources of the two encodings onto each other); for every world all explicit items exist on both sides, export "
+            "name sets are equal, wac invents no plain-named item, explicit items are pairwise mutual subtypes when the text has no "
+            "resources, and when both worlds import the same names wac's world type is a subtype of the reference's. Non-trivial: "
+            "texts with >= 2 interfaces and a `use`, or an include; distinct by text with digits removed.",
+    "assumptions": ["implicit (dependency) imports of worlds are outside the property: the reference imports a dependency interface whole, wac "
+                    "imports its types only, and when a dependency is also exported the reference routes the `use` to the export; such "
+                    "differences are counted (worlds-differ-only-in-dependency-imports-or-resources) and not reported",
+                    "texts the reference toolchain rejects (e.g. `interface transitively depends on an interface in incompatible ways`) are skipped and counted",
+                    "world-level `use`, world-level type definitions, stream/future/fixed-length lists and feature gates are outside the generated subset"],
+    "technique": "runtime monitor: differential oracle (reference WIT toolchain) + reference-validator subtype relation on nested encodings",
+    "level_text": "Every generated declaration text is pushed through both toolchains and the resulting types are compared by the reference validator's own subtype relation in both directions.",
+    "level_note": "Held on the generated subset of the shared WIT/WAC grammar; dependency-import routing of worlds is not compared.",
+}
+
 PROPS["C06"] = {
     "shards": 16,
     "quick_budget_s": 60,
